@@ -36,7 +36,10 @@ RULE = ("exhaustive small shapes: clean-up of every ordered pair of faces "
         "objects (history ops: the second use is judged like a fresh object's). Per case: the "
         "clauses of C14 are evaluated by the Lean checkers on (input, IMPLEMENTATION's result), the model's result "
         "must equal the implementation's canonical dump, idempotence is observed by running the real operation twice; "
-        "a quarter of the random cases runs under ASan/UBSan")
+        "a quarter of the random cases runs under ASan/UBSan"
+        '; the external-source entry points PointAttribute::DeduplicateValues(in_att [, offset]) (op dedupx, '
+        'oracle only, no model: every destination point carries the bit pattern of its source value, no two '
+        'stored values identical)')
 THEOREM_BACKED = ("dedupValues_preserves / _no_duplicates / _idempotent, dedupPointIds_preserves / _no_duplicates / "
                   "_idempotent, dedup_no_identical_points, cleanup_describes / _describes_exact / _survivors_spec / "
                   "_valid / _nothing_unused (all 16 option subsets), strips_describe_unconditional (both modes), "
@@ -47,8 +50,9 @@ THEOREM_BACKED = ("dedupValues_preserves / _no_duplicates / _idempotent, dedupPo
 TRUSTED_EXTRA = ["harness/ops_meshtools.cc (calls of the real utilities, canonical dump)",
                  "lean/DracoModel/C14Verify.lean (executable statement of the clauses evaluated on the implementation's "
                  "result; proved to hold of the model's result for every operation)"]
-CORRESPONDENCE_ONLY = ("that the model equals the real classes (hash containers, in-place buffer compaction, template "
-                       "dispatch over data types) is tied by the random cases, not proved")
+CORRESPONDENCE_ONLY = ('that the model equals the real classes (hash containers, in-place buffer compaction, template dispatch '
+                       'over data types) is tied by the random cases, not proved; the external-source '
+                       'PointAttribute::DeduplicateValues(in_att [, offset]) has no model: oracle only')
 EXPLANATION = ("full Lean proofs on the executable model of every clause for the attribute types the deduplication "
                "handles; for 64-bit components and more than 4 components the 'no duplicates left' clause is false "
                "of the code (theorems *_unsupported_counterexample) and is not demanded, the 'describes' clauses "
@@ -429,6 +433,27 @@ def strict_tag(mout):
     return "unsupported_type_duplicates_kept" if bad else "strict_clauses_hold"
 
 
+def dedupx_oracle(want, width):
+    """C14 for the external-source deduplication: every destination point carries the bit pattern of its source
+    value, and no two stored values are identical"""
+    def f(hout, case):
+        parts = hout.split("|")
+        if len(parts) != 3 or "ret=" not in parts[0]:
+            return ("dedupx-malformed", f"`{case.op[:200]}` -> {hout[:200]}")
+        ret = int(parts[0].split()[0].split("=")[1])
+        if ret < 0:
+            return None       # the type is reported as unsupported: nothing is promised
+        got = parts[1].split()
+        stored = parts[2].split()
+        if got != [w.hex() for w in want]:
+            bad = [i for i in range(min(len(got), len(want))) if got[i] != want[i].hex()][:3]
+            return ("dedup-changes-values", f"external-source deduplication changed point values (first at points {bad}; {len(got)} of {len(want)} points) for `{case.op[:300]}`")
+        if len(set(stored)) != len(stored) or len(stored) != len(set(got)):
+            return ("dedup-leaves-duplicates", f"{len(stored)} stored values for {len(set(got))} distinct bit patterns for `{case.op[:300]}`")
+        return None
+    return f
+
+
 def make_case(line, tags=(), flavour="plain"):
     c = Case(line, oracle=oracle, expect=expect, tags=tags, flavour=flavour)
     c.plain_line = plain_of(line)
@@ -644,6 +669,23 @@ def generate(rng, tier):
             else:
                 g = structured_mesh(rng, size(), "random")
             add(f"{op} {g.to_text()}", (op,), g)
+    # --- the external-source entry points PointAttribute::DeduplicateValues(in_att [, offset]) (oracle only)
+    for _ in range(60 * mult):
+        n = rng.randint(1, 40)
+        dt = rng.choice(["u8", "i8", "u16", "i16", "u32", "i32", "f32"])
+        nc = rng.randint(1, 4)
+        width = {"u8": 1, "i8": 1, "u16": 2, "i16": 2, "u32": 4, "i32": 4, "f32": 4}[dt] * nc
+        pool = [bytes(rng.getrandbits(8) for _ in range(width)) for _ in range(rng.choice([1, 2, 3, n, n]))]
+        if dt == "f32" and rng.random() < 0.5:
+            pool += [struct.pack("<f", 0.0) * nc, struct.pack("<f", -0.0) * nc, bytes.fromhex("0000c07f") * nc]
+        vals = [rng.choice(pool) for _ in range(n)]
+        off = rng.choice([0, 0, 1, 2, n // 2, n - 1])
+        off = max(0, min(off, n - 1))
+        mode = "plain" if off == 0 and rng.random() < 0.5 else "offset"
+        line = f"dedupx {off} {mode} pc {n} 0 - 1 {rng.randint(0, 4)} {G.DT[dt]} {nc} 0 0 {n} id {b''.join(vals).hex()} none"
+        c = Case(line, oracle=dedupx_oracle(vals[off:], width), tags=("dedupx", mode, f"dt{G.DT[dt]}"), flavour="asan" if rng.random() < 0.3 else "plain")
+        c.model = False
+        cases.append(c)
     # --- clean-up: every option subset on every mesh
     for _ in range(28 * mult):
         r = rng.random()
